@@ -246,6 +246,9 @@ def scenarios(tier, seed):
         ('fill', [a, L, b, L, a]), g(('fill', [a, L, b, L, a])), ('fill', [a, L, N, L, b]), ('fill', [ab(c(a, L, b)), L, a]), g(('fill', [a, L, ab(b)])), ('fill', [N]), ('fill', []),
         g(c(g(c(a, L, b)), L, g(c(b, L, a)))), g(c(a, H, b)), g(c(a, L, c(N, c(N)), b)),
         c(g(c(a, L, b)), H, g(('nest', 4, c(a, S, b)))),
+        # a forced break around nothing is still a forced break for the enclosing groups
+        g(c(ab(N), L, a)), g(c(a, L, ab(('t', '')))), g(('nest', 2, c(ab(c()), L, a, L, b))), g(c(a, L, ab(g(N)), L, b)), g(c(a, L, ab(('nest', 2, ('t', ''))))),
+        g(c(a, L, ('ann', ab(N)))), g(('fill', [a, L, ab(N), L, b])), ('nest', 2, N), g(('nest', 2, ('t', ''))), ab(N), c(a, ab(N), b),
     ]
     rng = random.Random(seed or 7)
 
